@@ -4,6 +4,7 @@ import Driver.C10
 import Driver.C08
 import Driver.C17
 import Driver.C11
+import Driver.Signer
 open Lean Driver
 
 def dispatch (p : String) (inp impl : Json) : CaseResult :=
@@ -13,6 +14,8 @@ def dispatch (p : String) (inp impl : Json) : CaseResult :=
   | "C08" => C08.handle inp impl
   | "C17" => C17.handle inp impl
   | "C11" => C11.handle inp impl
+  | "C02" => Signer.handleC02 inp impl
+  | "C03" => Signer.handleC03 inp impl
   | _ => { model := Json.null, spec := false, why := "unknown property " ++ p }
 
 partial def loop (h : IO.FS.Stream) (out : IO.FS.Stream) : IO Unit := do
